@@ -391,6 +391,8 @@ def run(ctx):
     D.loops_visit_all(ctx, "R-C08.12", only=("tx::write_tx::BaseTransaction::commit", "batch::WriteBatch::commit"))
 
     # ---- borrowed obligations (mechanisms owned by other properties that this property's verdict also rests on)
+    # every tx-keyspace helper commits a one-item batch: the batch's "nothing to do" answer must be for item-less batches only
+    ctx.borrow("C02", ["R-C02.19"], "R-C08.14")
     # commit applies all at once: the batch is applied under the keyspaces lock
     ctx.borrow("C06", ["R-C06.11"], "R-C08.13")
     # commit applies all at once: no exit between the first applied item and the publish
